@@ -282,4 +282,16 @@ def eTgt : Repo :=
     invs := [(1, [⟨1, 1, 1, 100⟩]), (2, [⟨1, 1, 2, 200⟩])]
     texts := [((1, 1), 100), ((1, 2), 200)] }
 
+example : closed eTgt eSrc = true ∧ agree eSrc eTgt = true ∧ complete eTgt = true ∧ noOrphanInv eSrc = true ∧
+    missing false eSrc eTgt 4 = [4, 3] ∧ anc eSrc 4 = [4, 2, 3, 1] ∧
+    (fetchResult .asFound true false eSrc eTgt 4).map (fun t' => (complete t', get t'.texts (2, 3))) =
+      some (true, some 300) ∧
+    (testament eSrc 4).isSome = true := by
+  decide +kernel
+
+example : (fetchResult .asFound true false eSrc eTgt 4).bind (fun t' => testament t' 4) = testament eSrc 4 := by
+  rfl
+
+example : fetchError .asFound true false eSrc eTgt 9 = some .noSuchRevision := by decide +kernel
+
 end BreezyVerif.C03
